@@ -31,6 +31,20 @@ CORPUS = [
     "function* g() { throw new Error('early'); yield 1; } let r = ''; try { g().next(); } catch (e) { r = 'caught'; } r",
     "function* g() { throw new Error('early'); yield 1; } let r = ''; try { for (const x of g()) { r += x; } } catch (e) { r = 'c2'; } r",
     "function* g(a: number) { let held = {a}; if (a > 0) throw new RangeError('pre'); yield held; } let r = 0; try { [...g(1)]; } catch (e) { r = 1; } r",
+    # library objects created while a script runs must be collectable: iterators, bound functions, proxies, regexps, promises
+    "const a = [1, 2, 3].values(); let s = 0; for (const v of a) s += v; s",
+    "const m = new Map([[1, {a: 1}], [2, {a: 2}]]); let s = 0; for (const [k, v] of m) s += k; for (const k of m.keys()) s += k; [...m.values()].length + s",
+    "const st = new Set([1, 2]); let s = 0; for (const v of st) s += v; [...st.values()].length + [...st.entries()].length + s",
+    "const [a, ...b] = new Set([1, 2, 3]); const [c] = new Map([[1, 2]]); const [d, ...e] = 'xyz'; a + b.length + e.length",
+    "[...'a1b2'.matchAll(/\\d/g)].length + 'x'.replace(/x/, (m) => m + m).length + 'a-b'.split(/-/).length",
+    "function* g() { try { yield 1; yield 2; } finally { } } let s = 0; for (const v of g()) { s += v; if (v === 1) break; } const it = g(); it.next(); it.return(1); s",
+    "const p = new Proxy({}, {get() { return 1; }, ownKeys() { return ['a']; }, getOwnPropertyDescriptor() { return {value: 1, enumerable: true, configurable: true}; }}); (p as any).a + Object.keys(p).length + Reflect.ownKeys({a: 1}).length",
+    "function f(this: any, a: any, b: any) { return a + b; } const bf = f.bind({}, 1); bf(2) + [1, 2].map(f.bind(null, 1)).length",
+    "let r: any; const p = new Promise(res => { r = res; }); p.then(v => v); r(1); Promise.all([p, 2]).then(() => 0); Promise.race([p]).finally(() => 0); 1",
+    "JSON.stringify(JSON.parse('{\"a\":[1,{\"b\":2}]}', (k, v) => v), (k, v) => v).length + JSON.stringify({d: new Date(0), toJSON() { return {x: 1}; }}).length",
+    "const sy = Symbol('x'); const o: any = {[sy]: 1, [Symbol.iterator]: function* () { yield 1; }, [Symbol.toPrimitive]() { return 2; }}; [...o].length + (+o) + Object.getOwnPropertySymbols(o).length",
+    "const xs = Array.from({length: 4}, (_, i) => ({i})); const ys = Array.from(new Set(xs), o => o.i); const zs = xs.toSorted((a, b) => b.i - a.i); Object.assign({}, ...xs, 'ab').i + Object.entries({...zs[0]}).length + ys.length",
+    "class A { static s = 1; #p = 2; get x() { return this.#p; } static make() { return new this(); } } class B extends A { get x() { return super.x + 1; } } B.make().x + B.s + String(new Error('e', {cause: 1})).length",
 ]
 
 
